@@ -199,6 +199,9 @@ pub enum TyperError {
     /// A template argument was expecting a default value
     DefaultTemplateArgumentMissing(SourceLocation),
 
+    /// Default template arguments are not implemented for function templates
+    DefaultTemplateArgumentNotSupported(SourceLocation),
+
     /// A template argument was required but was not provided
     TemplateArgumentMissing(SourceLocation, Option<Located<String>>),
 
@@ -963,6 +966,16 @@ impl CompileError for TyperExternalError {
             ),
             TyperError::DefaultTemplateArgumentMissing(loc) => w.write_message(
                 &|f| write!(f, "default template value required"),
+                *loc,
+                Severity::Error,
+            ),
+            TyperError::DefaultTemplateArgumentNotSupported(loc) => w.write_message(
+                &|f| {
+                    write!(
+                        f,
+                        "default template arguments are not supported on functions"
+                    )
+                },
                 *loc,
                 Severity::Error,
             ),
